@@ -201,3 +201,5 @@ func main() {
 }
 
 var specials = map[string]func(args []string){}
+
+func jsonBytes(v interface{}) ([]byte, error) { return json.Marshal(v) }
